@@ -131,6 +131,24 @@ theorem innov_gt (k : Kalman F) (h : PSD k) :
     rw [div_le_one (by positivity)]; norm_num
   linarith
 
+/-- The correcting update written out: with a PSD covariance the guard branch is not taken and the
+only divisions are by `innov k` (`> 2`). -/
+theorem update_eq_of_psd (k : Kalman F) (m : F) (h : PSD k) (hi : k.initialized = true) :
+    @Kalman.update F 𝕊 k m =
+      { x := k.x + k.v + (k.p0 + k.p2 + k.p1 + k.p3 + 1 / 2) / innov k * (m - (k.x + k.v)),
+        v := k.v + (k.p2 + k.p3) / innov k * (m - (k.x + k.v)),
+        p0 := (1 - (k.p0 + k.p2 + k.p1 + k.p3 + 1 / 2) / innov k) * (k.p0 + k.p2 + k.p1 + k.p3 + 1 / 2),
+        p1 := (1 - (k.p0 + k.p2 + k.p1 + k.p3 + 1 / 2) / innov k) * (k.p1 + k.p3),
+        p2 := k.p2 + k.p3 - (k.p2 + k.p3) / innov k * (k.p0 + k.p2 + k.p1 + k.p3 + 1 / 2),
+        p3 := k.p3 + 1 / 10 - (k.p2 + k.p3) / innov k * (k.p1 + k.p3),
+        initialized := true } := by
+  have ht := (innov_gt e k h).2
+  unfold Kalman.update
+  have hfin : (@Scalar.isFinite F 𝕊 m) = true := rfl
+  simp only [hfin, hi, ht, Bool.not_true, Bool.false_eq_true, if_false]
+  simp only [one_eq, qValue_eq, qVelocity_eq, rNoise_eq, innov]
+  rfl
+
 /-- Any sample history from the fresh filter keeps the covariance PSD. -/
 theorem psd_history (ms : List F) : PSD (ms.foldl (@Kalman.update F 𝕊) (@Kalman.new F 𝕊)) := by
   suffices h : ∀ k : Kalman F, PSD k → PSD (ms.foldl (@Kalman.update F 𝕊) k) from h _ (psd_new e)
